@@ -1001,8 +1001,21 @@ func (x *Exec) applyContractSig(st *State, call *ast.CallExpr, sig *types.Signat
 	pre := st.clone()
 	// call-site assertions of the function under verification (its own locals are visible)
 	if x.contract != nil && len(x.inRes) == 0 {
-		for i, ca := range x.contract.CallAsserts[c.Local] {
+		// the callee may be named by its local name (Type.Method, Func) or qualified by its package name
+		caKey := c.Local
+		if k := strings.LastIndex(c.PkgPath, "/"); len(x.contract.CallAsserts[caKey]) == 0 {
+			caKey = c.PkgPath[k+1:] + "." + c.Local
+		}
+		if len(x.contract.CallAsserts[caKey]) > 0 {
+			x.counts["atcall:"+caKey]++
+		}
+		for i, ca := range x.contract.CallAsserts[caKey] {
 			cenv := x.specEnvAt(st, call.Pos())
+			for _, lc := range x.curLoops {
+				for k, v := range lc.names {
+					cenv.names[k] = v // idxN, rngN, seenN ... of the enclosing loops, at the head of the current iteration
+				}
+			}
 			for k, v := range names {
 				if _, isLocal := cenv.lookup(k); !isLocal {
 					cenv.names[k] = v // the callee's parameter names denote the actual arguments
